@@ -6,6 +6,7 @@
 int run_lin(const vf::Args&);
 int run_scan(const vf::Args&);
 int run_phantom(const vf::Args&);
+int run_phantom_micro(const vf::Args&);
 int run_gc(const vf::Args&);
 int run_struct(const vf::Args&);
 int run_ddl(const vf::Args&);
@@ -23,6 +24,7 @@ int main(int argc, char** argv) {
     if (mode == "lin") { return run_lin(args); }
     if (mode == "scan") { return run_scan(args); }
     if (mode == "phantom") { return run_phantom(args); }
+    if (mode == "phantom_micro") { return run_phantom_micro(args); }
     if (mode == "gc") { return run_gc(args); }
     if (mode == "struct") { return run_struct(args); }
     if (mode == "ddl") { return run_ddl(args); }
